@@ -81,8 +81,9 @@ ASSUMPTIONS = [
     'LSF compute hosts have at least 2 slots and names without "login"/'
     '"batch"; pseudo nodes have exactly one line',
     'PBSPro exec_vnode chunks name one vnode per host; qstat is always on '
-    '$PATH (succeeding or failing); when qstat succeeds ncpus equals the '
-    'configured cores_per_node if that is set',
+    '$PATH (succeeding or failing); when qstat succeeds the chunk size '
+    '(ncpus) is what was allocated, whatever cores_per_node the platform '
+    'config carries',
     'cfg.nodes >= 1 (the launcher always sets it); GPU environment variables '
     'of Slurm agree with each other',
     'a resource manager which refuses to start (raises) offers no list; that '
@@ -363,8 +364,17 @@ def gen_case(rng, idx):
         env['PBS_JOBID'] = '%d.pbs01' % rng.randint(1000, 99999)
         if src == 'PBSPRO-qstat':
             mode = 'ok'
-            if rng.random() < 0.4:
+            r = rng.random()
+            if r < 0.4:
                 cfg_cpn = 0
+            elif r < 0.65:
+                # the platform config says one thing, the job's select
+                # statement (`ncpus` of the chunks) another: what qstat reports
+                # is what was allocated, and it is what every node entry and
+                # `cores_per_node` have to show
+                cfg_cpn = rng.choice([C * 2, C + 1, max(1, C // 2)])
+                if cfg_cpn != C:
+                    feat.add('pbspro-config-differs-from-ncpus')
         else:
             mode = rng.choice(['fail', 'fail', 'no-vnode', 'extras'])
 
